@@ -177,7 +177,11 @@ impl DOPRI5 {
         }
 
         // Maximum step size
-        let h_max = self.max_step.unwrap_or((xend - x).abs());
+        let mut h_max = self.max_step.unwrap_or((xend - x).abs());
+        // Never larger than the interval: keeps the initial-step probe inside [x0, xend]
+        if h_max.abs() > (xend - x).abs() {
+            h_max = (xend - x).abs();
+        }
 
         // Maximum Number of Steps
         let nmax = self.max_steps;
